@@ -33,6 +33,17 @@ def _cls(tree, name):
     raise TranslateError(f"class {name} not found")
 
 
+def _unann(tree):
+    """Type annotations carry no behaviour: `a: T = e` is read as `a = e` (annotations without value are dropped)."""
+    class T(ast.NodeTransformer):
+        def visit_AnnAssign(self, n):
+            self.generic_visit(n)
+            if n.value is None:
+                return None
+            return ast.copy_location(ast.Assign(targets=[n.target], value=n.value, type_comment=None), n)
+    return ast.fix_missing_locations(T().visit(tree))
+
+
 def coq_string(s):
     return '"' + s.replace('"', '""') + '"'
 
@@ -1360,7 +1371,7 @@ def gen_subspace_tail():
     returned point; plus the construction of the selection matrix Z in get_freev."""
     L = ["(* GENERATED from /repo/lbfgsb/subspacemin.py by harness/translate.py - do not edit *)",
          "From Coq Require Import List Bool Floats.PrimFloat.", "From LBFGSB Require Import Model.FloatVec Model.NumpyOps.", "Import ListNotations.", ""]
-    st_ = ast.parse(_src("subspacemin.py"))
+    st_ = _unann(ast.parse(_src("subspacemin.py")))
     # --- get_freev: Z is the selection matrix of free_vars, n = x_cp.size
     gf = _func(st_, "get_freev")
     asg = {}
@@ -1412,19 +1423,22 @@ def gen_subspace_tail():
     if len(k) != 1 or k[0] != len(body) - 4:
         raise TranslateError("subspace_minimization: dHat is not assigned once, four statements before the end")
     k = k[0]
-    # the reduced solve (statements 7 .. k-1) is the oracle: it may only write its own temporaries
-    ok_targets = {"v", "K", "LK", "N", "M"}
+    # the reduced solve (statements 7 .. k-1) is the oracle: it may write any local of its own, but none of the names the
+    # translated statements read (nor mutate what they are bound to)
+    protected = {"x", "xc", "free_vars", "Z", "A", "c", "grad", "lb", "ub", "mats", "invThet", "WTZ", "r", "rHat"}
     for s_ in body[7:k]:
         for n_ in ast.walk(s_):
-            if isinstance(n_, ast.Name) and isinstance(n_.ctx, ast.Store) and n_.id not in ok_targets:
+            if isinstance(n_, ast.Name) and isinstance(n_.ctx, (ast.Store, ast.Del)) and n_.id in protected:
                 raise TranslateError("subspace_minimization: the reduced solve writes " + n_.id)
             if isinstance(n_, ast.Return):
                 raise TranslateError("subspace_minimization: the reduced solve returns")
-            if isinstance(n_, ast.Call) and isinstance(n_.func, ast.Attribute) and n_.func.attr in ("fill", "sort", "resize", "put", "itemset") \
-                    and ast.unparse(n_.func.value) not in ok_targets:
+            if isinstance(n_, ast.Call) and isinstance(n_.func, ast.Attribute) and n_.func.attr in ("fill", "sort", "resize", "put", "itemset", "append", "extend", "pop", "clear", "insert", "remove", "reverse") \
+                    and ast.unparse(n_.func.value).split("[")[0].split(".")[0] in protected:
                 raise TranslateError("subspace_minimization: the reduced solve mutates " + ast.unparse(n_.func.value))
-            if isinstance(n_, (ast.Subscript, ast.Attribute)) and isinstance(n_.ctx, ast.Store) and ast.unparse(n_.value).split("[")[0].split(".")[0] not in ok_targets:
+            if isinstance(n_, (ast.Subscript, ast.Attribute)) and isinstance(n_.ctx, (ast.Store, ast.Del)) and ast.unparse(n_.value).split("[")[0].split(".")[0] in protected:
                 raise TranslateError("subspace_minimization: the reduced solve writes into " + ast.unparse(n_))
+            if isinstance(n_, ast.keyword) and n_.arg in ("out", "overwrite_a", "overwrite_b") and not (isinstance(n_.value, ast.Constant) and n_.value.value is False):
+                raise TranslateError("subspace_minimization: the reduced solve passes " + n_.arg)
     lets.append("let corr_ := o_corr free_vars rHat in")
     env["np.transpose(WTZ).dot(v)"] = ("corr_", "v")
     bind(k, "dHat", "dHat", "v")
@@ -1465,7 +1479,7 @@ def gen_cauchy_step():
     scalars), by symbolic execution of the statements in order; and the advance to the next breakpoint."""
     L = ["(* GENERATED from /repo/lbfgsb/cauchy.py by harness/translate.py - do not edit *)",
          "From Coq Require Import List Bool Floats.PrimFloat.", "From LBFGSB Require Import Model.FloatVec Model.NumpyOps.", "Import ListNotations.", ""]
-    ct = ast.parse(_src("cauchy.py"))
+    ct = _unann(ast.parse(_src("cauchy.py")))
     fn = _func(ct, "get_cauchy_point")
     eps = [st for st in fn.body if isinstance(st, ast.Assign) and ast.unparse(st.targets[0]) == "eps_f_sec"]
     if len(eps) != 1 or ast.unparse(eps[0].value) != "np.finfo(float).eps":
@@ -1689,6 +1703,21 @@ def gen_loop_control():
         raise TranslateError("line-search budget is not an integer expression")
     L.append("(* the max_iter argument of line_search *)")
     L.append(f"Definition ls_budget (maxls maxfun nfev : Z) : Z := {b_}.")
+    return "\n".join(L) + "\n"
+
+
+GENERATORS["LoopControl.v"] = gen_loop_control
+
+
+def gen_rebuild_rule():
+    """main.minimize_lbfgsb: when the limited-memory matrices are rebuilt although the new pair is rejected, and when they are
+    reset - the is_force_update arguments of the two calls of update_lbfgs_matrices and the test of `mats = LBFGSB_MATRICES(n)`."""
+    L = ["(* GENERATED from /repo/lbfgsb/main.py by harness/translate.py - do not edit *)",
+         "From Coq Require Import List Bool Arith.", ""]
+    f = _func(ast.parse(_src("main.py")), "minimize_lbfgsb")
+    wh = [n for n in ast.walk(f) if isinstance(n, ast.While)]
+    if len(wh) != 1:
+        raise TranslateError(f"expected exactly one while loop in minimize_lbfgsb, found {len(wh)}")
     # when the matrices are rebuilt although the new pair is rejected, and when they are reset: expressions over
     # `update_fun_def is not None` and len(X)
     def trn(n):
@@ -1717,14 +1746,13 @@ def gen_loop_control():
     if len(resets) != 1:
         raise TranslateError("expected one conditional reset of the matrices inside the loop")
     L.append("(* is_force_update of the call of update_lbfgs_matrices in the loop / before the loop; the test of `mats = LBFGSB_MATRICES(n)` *)")
-    L.append("From Coq Require Import List.")
     L.append(f"Definition force_update {{A}} (has_upd : bool) (X : list A) : bool := {trn([k.value for k in in_loop[0].keywords if k.arg == 'is_force_update'][0])}.")
     L.append(f"Definition force_update_at_start {{A}} (X : list A) : bool := {trn([k.value for k in at_start.keywords if k.arg == 'is_force_update'][0])}.")
     L.append(f"Definition reset_matrices {{A}} (has_upd : bool) (X : list A) : bool := {trn(resets[0].test)}.")
     return "\n".join(L) + "\n"
 
 
-GENERATORS["LoopControl.v"] = gen_loop_control
+GENERATORS["RebuildRule.v"] = gen_rebuild_rule
 
 
 def gen_sf_src():
@@ -1886,6 +1914,142 @@ def gen_sf_src():
 
 
 GENERATORS["SFSrc.v"] = gen_sf_src
+
+
+def gen_mats_params():
+    """bfgsmats.update_lbfgs_matrices: when the matrices are rebuilt, theta = y.y / s.y of the newest stored pair, and the assembly
+    S = diff(X).T, Y = diff(G).T, W = [Y, theta * S] (everything that is not dense linear algebra)."""
+    L = ["(* GENERATED from /repo/lbfgsb/bfgsmats.py by harness/translate.py - do not edit *)",
+         "From Coq Require Import List Bool Floats.PrimFloat.", "From LBFGSB Require Import Model.FloatVec Model.NumpyOps.", "Import ListNotations.", ""]
+    bt = _unann(ast.parse(_src("bfgsmats.py")))
+    fn = _func(bt, "update_lbfgs_matrices")
+    if [a.arg for a in fn.args.args] != ["xk", "gk", "X", "G", "maxcor", "mats", "is_force_update", "eps", "is_check_factorization"]:
+        raise TranslateError("update_lbfgs_matrices: unexpected parameters")
+    body = [s for s in fn.body if not (isinstance(s, ast.Expr) and isinstance(s.value, ast.Constant))]
+    u = [ast.unparse(s) for s in body]
+    if len(body) != 3 or u[0] != "is_current_update_accepted = update_X_and_G(xk, gk, X, G, maxcor, eps)" or not isinstance(body[1], ast.If) \
+            or body[1].orelse or u[2] != "return mats":
+        raise TranslateError("update_lbfgs_matrices: unexpected shape " + " | ".join(x[:60] for x in u))
+    t = body[1].test
+    if not (isinstance(t, ast.BoolOp) and isinstance(t.op, ast.Or) and [ast.unparse(v) for v in t.values] == ["is_force_update", "is_current_update_accepted"]):
+        raise TranslateError("update_lbfgs_matrices: unexpected rebuild test " + ast.unparse(t))
+    L.append("(* if is_force_update or is_current_update_accepted: *)")
+    L.append("Definition rebuild (is_force_update is_current_update_accepted : bool) : bool := is_force_update || is_current_update_accepted.")
+    blk = [s for s in body[1].body if not (isinstance(s, ast.If) and ast.unparse(s.test) == "is_check_factorization")]
+    ub = [ast.unparse(s) for s in blk]
+
+    class VE(VecExpr):
+        def tr(self, n):
+            # X[-1], X[-2] on the deques of stored points / gradients
+            if isinstance(n, ast.Subscript) and isinstance(n.value, ast.Name) and n.value.id in ("X", "G") and isinstance(n.slice, ast.UnaryOp) \
+                    and isinstance(n.slice.op, ast.USub) and isinstance(n.slice.operand, ast.Constant) and n.slice.operand.value in (1, 2):
+                return (f"(nth_back {n.slice.operand.value - 1} {n.value.id})", "v")
+            return super().tr(n)
+    env = {"vdot": ("vdot", "fn")}
+    lets = []
+    for i, (name, ty) in enumerate([("yk", "v"), ("sTy", "f"), ("yTy", "f")]):
+        s = blk[i]
+        if not (isinstance(s, ast.Assign) and len(s.targets) == 1 and ast.unparse(s.targets[0]) == name):
+            raise TranslateError(f"update_lbfgs_matrices: statement {i} of the rebuild is not an assignment of {name}: " + ub[i])
+        t_, ty_ = VE(env).tr(s.value)
+        if ty_ != ty:
+            raise TranslateError(f"update_lbfgs_matrices: {name} has type {ty_}")
+        lets.append(f"let {name} := {t_} in")
+        env[name] = (name, ty)
+    if not (isinstance(blk[3], ast.Assign) and ast.unparse(blk[3].targets[0]) == "mats.theta"):
+        raise TranslateError("update_lbfgs_matrices: theta is not assigned after yk, sTy, yTy: " + ub[3])
+    th_, tth_ = VE(env).tr(blk[3].value)
+    if tth_ != "f":
+        raise TranslateError("update_lbfgs_matrices: theta is not a scalar")
+    L.append("(* yk = G[-1] - G[-2]; sTy = (X[-1] - X[-2]).dot(yk); yTy = yk.dot(yk); mats.theta = yTy / sTy *)")
+    L.append("Definition theta (vdot : vec -> vec -> float) (X G : list vec) : float :=\n  " + " ".join(lets) + " " + th_ + ".")
+    rest = ub[4:]
+    want = ["mats.S = np.diff(np.array(X), axis=0).T", "mats.Y = np.diff(np.array(G), axis=0).T", "STS = mats.S.T @ mats.S", "mats.L = mats.S.T @ mats.Y",
+            "mats.D = np.diag(np.diag(mats.L))", "mats.L = np.tril(mats.L, -1)", "mats.W = np.hstack([mats.Y, mats.theta * mats.S])",
+            "mats.invMfactors = form_invMfactors(mats.theta, STS, mats.L, mats.D)"]
+    if rest != want:
+        raise TranslateError("update_lbfgs_matrices: unexpected assembly of the matrices: " + " | ".join(rest))
+    L.append("(* mats.S = np.diff(np.array(X), axis=0).T; mats.Y = np.diff(np.array(G), axis=0).T: the columns are the pairs, oldest first;\n"
+             "   mats.W = np.hstack([mats.Y, mats.theta * mats.S]): row i = the i-th components of the y's, then theta * those of the s's.\n"
+             "   (STS, L, D and the factors of M^-1 are dense linear algebra: oracles / the exact model of C10) *)")
+    L.append("Definition w_matrix (n : nat) (theta : float) (X G : list vec) : list vec :=\n"
+             "  let S := diffs X in let Y := diffs G in hstack_cols n Y (List.map (fun s_ => List.map (fun e_ => PrimFloat.mul theta e_) s_) S).")
+    return "\n".join(L) + "\n"
+
+
+GENERATORS["MatsGen.v"] = gen_mats_params
+
+
+def gen_cauchy_init():
+    """cauchy.get_cauchy_point: the statements between the ordering of the breakpoints and the loop - p = W'd, c = 0, f', f'', f2_org,
+    the correction of f'' by the BLAS oracle, delta_t_min, the early return without breakpoint, the first breakpoint."""
+    L = ["(* GENERATED from /repo/lbfgsb/cauchy.py by harness/translate.py - do not edit *)",
+         "From Coq Require Import List Bool Floats.PrimFloat.", "From LBFGSB Require Import Model.FloatVec Model.NumpyOps.", "Import ListNotations.", ""]
+    fn = _func(_unann(ast.parse(_src("cauchy.py"))), "get_cauchy_point")
+    body = [s for s in fn.body if not (isinstance(s, ast.Expr) and isinstance(s.value, ast.Constant)) and not (isinstance(s, ast.If) and "logger" in ast.unparse(s.test))]
+    names = [ast.unparse(s.targets[0]) if isinstance(s, ast.Assign) else (ast.unparse(s.target) if isinstance(s, (ast.AnnAssign, ast.AugAssign)) else None) for s in body]
+    # start right after the second assignment of sorted_t_idx, stop at the while
+    idx = [i for i, n in enumerate(names) if n == "sorted_t_idx"]
+    wh = [i for i, s in enumerate(body) if isinstance(s, ast.While)]
+    if len(idx) != 2 or len(wh) != 1:
+        raise TranslateError("get_cauchy_point: head or loop not found")
+    seg = body[idx[1] + 1:wh[0]]
+    u = [ast.unparse(s) for s in seg]
+    want = ["p = mats.W.T @ d", "c = np.zeros(p.size)", "f_prime = -d.dot(d)", "f_second = -mats.theta * f_prime",
+            "f2_org = copy.deepcopy(f_second)", "if mats.use_factor:\n    f_second = f_second - p.dot(bmv(mats.invMfactors, p))",
+            "delta_t_min = -f_prime / f_second", "nbreak = len(sorted_t_idx)", "if nbreak == 0:\n    return (x_cp, c)", "_i = 0",
+            "ibp = sorted_t_idx[_i]", "t_cur = t[ibp]", "t_old = 0.0", "delta_t = t_cur - 0.0", "nseg = 1", "is_gpc_found = False"]
+    # the scalar statements are translated; the others are recognised by their text
+    FIXED = {0, 1, 4, 7, 8, 9, 10, 14, 15}
+    if len(u) != len(want) or any(u[i] != want[i] for i in FIXED):
+        raise TranslateError("get_cauchy_point: unexpected statements before the loop: " + " | ".join(u))
+    xcp0 = [s for s in fn.body if isinstance(s, ast.Assign) and ast.unparse(s.targets[0]) == "x_cp"]
+    if len(xcp0) != 1 or ast.unparse(xcp0[0].value) != "x.copy()":
+        raise TranslateError("get_cauchy_point: x_cp is not initialised to x.copy()")
+    env = {"d": ("d", "v"), "mats.theta": ("theta", "f"), "vdot": ("vdot", "fn"), "p": ("p", "v"), "t": ("t", "v"), "ibp": ("i0", "n"),
+           "p.dot(bmv(mats.invMfactors, p))": ("(o_pMp p)", "f")}
+    lets = []
+    def sc(i, name, coq):
+        s = seg[i]
+        tgt = ast.unparse(s.targets[0]) if isinstance(s, ast.Assign) else ast.unparse(s.target)
+        if tgt != name:
+            raise TranslateError(f"get_cauchy_point: expected an assignment of {name}, found {u[i]}")
+        t_, ty_ = VecExpr(env).tr(s.value)
+        if ty_ != "f":
+            raise TranslateError(f"get_cauchy_point: {name} is not a scalar")
+        lets.append(f"let {coq} := {t_} in")
+        env[name] = (coq, "f")
+    sc(2, "f_prime", "f_prime")
+    sc(3, "f_second", "f_second0")
+    env["f2_org"] = ("f_second0", "f")
+    # if mats.use_factor: f_second = f_second - p.dot(bmv(mats.invMfactors, p))
+    ifs = seg[5]
+    if not (isinstance(ifs, ast.If) and ast.unparse(ifs.test) == "mats.use_factor" and not ifs.orelse and len(ifs.body) == 1 and isinstance(ifs.body[0], ast.Assign)
+            and ast.unparse(ifs.body[0].targets[0]) == "f_second"):
+        raise TranslateError("get_cauchy_point: unexpected correction of f_second: " + u[5])
+    t_, ty_ = VecExpr(env).tr(ifs.body[0].value)
+    lets.append(f"let f_second := if use_factor then {t_} else f_second0 in")
+    env["f_second"] = ("f_second", "f")
+    sc(6, "delta_t_min", "delta_t_min")
+    L.append("(* p = mats.W.T @ d is the oracle's; c = zeros; vdot a b = a.dot(b); o_pMp p = p.dot(bmv(mats.invMfactors, p)).\n"
+             "   Result: (f_prime, f_second, f2_org, delta_t_min) before the loop *)")
+    L.append("Definition cauchy_init (vdot : vec -> vec -> float) (o_pMp : vec -> float) (theta : float) (use_factor : bool) (d p : vec) : float * float * float * float :=\n  "
+             + " ".join(lets) + " (f_prime, f_second, f_second0, delta_t_min).")
+    # the first breakpoint
+    env2 = {"t": ("t", "v"), "ibp": ("i0", "n")}
+    tc_, _ = VecExpr(env2).tr(seg[11].value)
+    env2["t_cur"] = ("t_cur", "f")
+    if ast.unparse(seg[12].value) != "0.0":
+        raise TranslateError("get_cauchy_point: t_old does not start at 0.0")
+    dt_, tdt_ = VecExpr(env2).tr(seg[13].value)
+    L.append("(* ibp = sorted_t_idx[0]; t_cur = t[ibp]; t_old = 0.0; delta_t = t_cur - 0.0 : (t_cur, delta_t, t_old) *)")
+    L.append(f"Definition cauchy_first (t : vec) (i0 : nat) : float * float * float := let t_cur := {tc_} in (t_cur, {dt_}, 0x0.0p+0%float).")
+    L.append("(* if nbreak == 0: return x_cp, c  with x_cp = x.copy() and c = np.zeros(p.size) *)")
+    L.append("Definition cauchy_no_breakpoint (x p : vec) : vec * vec := (x, List.map (fun _ => 0x0.0p+0%float) p).")
+    return "\n".join(L) + "\n"
+
+
+GENERATORS["CauchyInit.v"] = gen_cauchy_init
 
 
 def generate():
